@@ -2,6 +2,7 @@ package transaction
 
 import (
 	"fmt"
+	"strings"
 	"time"
 
 	"github.com/sboehler/knut/lib/common/compare"
@@ -68,9 +69,12 @@ type Builder struct {
 // Build builds a transactions.
 func (tb Builder) Build() *Transaction {
 	return &Transaction{
-		Src:         tb.Src,
-		Date:        tb.Date,
-		Description: tb.Description,
+		Src:  tb.Src,
+		Date: tb.Date,
+		// knut's syntax has no escape for a double quote inside a description, it is
+		// written as a single quote. Replacing it here (and not only when printing)
+		// keeps the order of transactions the same when the printed journal is read back.
+		Description: strings.ReplaceAll(tb.Description, "\"", "'"),
 		Postings:    tb.Postings,
 		Targets:     tb.Targets,
 	}
